@@ -418,7 +418,7 @@ def fields_struct(fields, seen, ref, n=None):
     for name, f in fields.items():
         if ref:
             if isinstance(f, RColl):
-                out.append({"name": name, "coll": True, "num_obs": n if f.fields else None, "level": f.level,
+                out.append({"name": name, "coll": True, "num_obs": n, "level": f.level,
                             "fields": fields_struct(f.fields, seen, True, n)})
             else:
                 out.append({"name": name, "kind": f.kind, "num_obs": n, "unit": f.unit, "level": f.level,
@@ -426,7 +426,7 @@ def fields_struct(fields, seen, ref, n=None):
         else:
             if f.fieldtype == "collection":
                 sub = f.data._fields
-                out.append({"name": name, "coll": True, "num_obs": f.num_obs if sub else None, "level": int(f._write_level),
+                out.append({"name": name, "coll": True, "num_obs": f.num_obs, "level": int(f._write_level),
                             "fields": fields_struct(sub, seen, False)})
             else:
                 out.append({"name": name, "kind": f.fieldtype, "num_obs": f.num_obs,
@@ -476,13 +476,13 @@ def diff_fields(A, B, where):
         if a.get("coll") != b.get("coll"):
             return ("fields", w, f"{a['name']}: collection vs leaf")
         if a.get("coll"):
+            r = diff_fields(a["fields"], b["fields"], where + a["name"] + ".")
+            if r:
+                return r
             if a["num_obs"] != b["num_obs"]:
                 return ("field-num_obs", "collection", f"{a['name']}: {a['num_obs']} expected {b['num_obs']}")
             if a["level"] != b["level"]:
                 return ("level", "collection", a["name"])
-            r = diff_fields(a["fields"], b["fields"], where + a["name"] + ".")
-            if r:
-                return r
             continue
         if a["kind"] != b["kind"]:
             return ("kind", w, f"{a['name']}: {a['kind']} expected {b['kind']}")
